@@ -15,12 +15,27 @@ def charset_now():
     return meta._charset
 
 
+EXTRA_TEXTS = []     # the texts of the file the last call worked on: they must be coded with latin1 elsewhere, too
+
+
 def elsewhere_ok():
-    """meta text encoded elsewhere in the process uses latin1"""
-    from mido.midifiles.meta import MetaMessage
+    """meta text encoded or decoded elsewhere in the process uses latin1 — for a fixed probe and for the very strings and payloads
+    the last load/save handled (a stale per-string cache would show only there)"""
+    from mido.midifiles.meta import MetaMessage, encode_variable_int
     try:
-        return MetaMessage('text', text='\u00e9').bytes() == [0xff, 0x01, 0x01, 0xe9] and \
-            MetaMessage.from_bytes([0xff, 0x01, 0x01, 0xe9]).text == '\u00e9' and charset_now() == 'latin1'
+        if not (MetaMessage('text', text='\u00e9').bytes() == [0xff, 0x01, 0x01, 0xe9] and
+                MetaMessage.from_bytes([0xff, 0x01, 0x01, 0xe9]).text == '\u00e9' and charset_now() == 'latin1'):
+            return False
+        for t, payload in EXTRA_TEXTS:
+            try:
+                want = list(t.encode('latin1'))
+            except UnicodeError:
+                want = None
+            if want is not None and MetaMessage('text', text=t).bytes()[2 + len(encode_variable_int(len(want))):] != want:
+                return False
+            if len(payload) < 128 and MetaMessage.from_bytes([0xff, 0x01, len(payload)] + list(payload)).text != bytes(payload).decode('latin1'):
+                return False
+        return True
     except Exception:  # noqa: BLE001
         return False
 
@@ -64,6 +79,7 @@ def texts_of(mf):
 
 
 def check_roundtrip(cs, texts):
+    EXTRA_TEXTS[:] = [(t, t.encode(cs)) for t in texts]
     """text survives save and load with the charset; the bytes in the file are the text encoded in that charset; the charset does not leak"""
     n = 0
     mf = mkfile(cs, texts)
@@ -102,6 +118,7 @@ def failing_calls(rng, cs, texts):
     n-th message, unencodable text; after each call the charset must be the default again"""
     import mido
     n = 0
+    EXTRA_TEXTS[:] = [(t, t.encode(cs)) for t in texts]
     mf = mkfile(cs, texts)
     buf = io.BytesIO()
     mf.save(file=buf)
